@@ -145,7 +145,7 @@ def main(seed, tier):
         "C09", results, t0, seed, tier, assumptions=ASSUMPTIONS + [
             "the national rules are the sidecar specs of C06 (contracts/national.py); 'nationally valid' = that spec",
             "random draws reach the national digits only through BBAN.from_components (C13's funnel obligation)",
-            "NO: account numbers in the unspecified band (digits 5-6 = 00) are excluded from the rebuild obligation"],
+            "NO: for account numbers whose digits 5-6 are 00 the rule is the library's documented reading (see C06)"],
         extra_cov=dict(computing_countries=nineteen, countries_with_positions=len(with_pos)),
         not_proved_note="(i) for the 19 computing countries every IBAN returned by generate satisfies the published "
                         "national rule; (ii) per country with positions: from_components(components_of(b)) == b on "
